@@ -52,6 +52,7 @@ type c10 struct {
 	sweep bool
 	nRep  int
 	taken bool
+	pre   seqx.Pre
 }
 
 func c10Spec(tier, scenario string) seqx.Spec {
@@ -66,7 +67,7 @@ func c10Spec(tier, scenario string) seqx.Spec {
 		for p := 0; p < 2; p++ {
 			c.W.Send(p, smf.Assoc(1, c.W.PeerIP(p)))
 			if v := c.est(p); v != "" {
-				evid.Infra("C10 prefix: %s", v)
+				c.pre.Fail("C10", v)
 			}
 		}
 		return c
@@ -549,7 +550,7 @@ func (c *c10) Apply(e seqx.Event) seqx.StepResult {
 	if e.Op != "Sweep" {
 		c.sweep = false
 	}
-	return seqx.StepResult{Obs: e.String() + " => " + o.StringL(c.label), Viols: j.Viols, Tags: j.Tags}
+	return seqx.StepResult{Obs: e.String() + " => " + o.StringL(c.label), Viols: append(c.pre.Take(), j.Viols...), Tags: j.Tags}
 }
 
 func (c *c10) seq() uint32 { seqCtr++; return seqCtr }
